@@ -263,6 +263,78 @@ class GrowthDomain(FactDomain):
         return ((frozenset(new), user), consts)
 
 
+
+def _coords(text, dim):
+    """elements (normalised texts) of a coordinate tuple expression for a tree of dimension `dim`: tuple displays, concatenation, repetition,
+    tuple(<generator over a constant range>), conditional expressions on self.dimension; None when the expression is not of that kind"""
+    try:
+        e = ast.parse(text, mode='eval').body
+    except SyntaxError:
+        return None
+
+    def const(x, env):
+        if isinstance(x, ast.Constant) and isinstance(x.value, int):
+            return x.value
+        if isinstance(x, ast.Name) and x.id in env:
+            return env[x.id]
+        if isinstance(x, ast.Attribute) and norm_text(x) == 'self.dimension':
+            return dim
+        if isinstance(x, ast.IfExp):
+            t = truth(x.test, env)
+            return None if t is None else const(x.body if t else x.orelse, env)
+        if isinstance(x, ast.BinOp) and isinstance(x.op, (ast.Add, ast.Sub, ast.Mult)):
+            a, b = const(x.left, env), const(x.right, env)
+            if a is None or b is None:
+                return None
+            return a + b if isinstance(x.op, ast.Add) else (a - b if isinstance(x.op, ast.Sub) else a * b)
+        return None
+
+    def truth(t, env):
+        if isinstance(t, ast.Compare) and len(t.ops) == 1:
+            a, b = const(t.left, env), const(t.comparators[0], env)
+            if a is None or b is None:
+                return None
+            op = t.ops[0]
+            return {ast.Eq: a == b, ast.NotEq: a != b, ast.Lt: a < b, ast.LtE: a <= b, ast.Gt: a > b, ast.GtE: a >= b}.get(type(op))
+        return None
+
+    def subst(x, env):
+        class S(ast.NodeTransformer):
+            def visit_Name(s_, n_):
+                return ast.copy_location(ast.Constant(value=env[n_.id]), n_) if n_.id in env else n_
+        import copy
+        return S().visit(copy.deepcopy(x))
+
+    def go(x, env):
+        if isinstance(x, (ast.Tuple, ast.List)):
+            return [norm_text(subst(el, env)) for el in x.elts]
+        if isinstance(x, ast.BinOp) and isinstance(x.op, ast.Add):
+            a, b = go(x.left, env), go(x.right, env)
+            return None if a is None or b is None else a + b
+        if isinstance(x, ast.BinOp) and isinstance(x.op, ast.Mult):
+            a, k = go(x.left, env), const(x.right, env)
+            return None if a is None or k is None else a * k
+        if isinstance(x, ast.IfExp):
+            t = truth(x.test, env)
+            return None if t is None else go(x.body if t else x.orelse, env)
+        if isinstance(x, ast.Call) and isinstance(x.func, ast.Name) and x.func.id in ('tuple', 'list') and len(x.args) == 1:
+            g = x.args[0]
+            if isinstance(g, (ast.GeneratorExp, ast.ListComp)) and len(g.generators) == 1 and not g.generators[0].ifs \
+                    and isinstance(g.generators[0].target, ast.Name) and isinstance(g.generators[0].iter, ast.Call) \
+                    and norm_text(g.generators[0].iter.func) == 'range':
+                a = [const(v, env) for v in g.generators[0].iter.args]
+                if any(v is None for v in a) or not a:
+                    return None
+                out = []
+                for k in range(*a):
+                    env2 = dict(env)
+                    env2[g.generators[0].target.id] = k
+                    out.append(norm_text(subst(g.elt, env2)))
+                return out
+            return go(g, env)
+        return None
+    return go(e, {})
+
 class Checker:
     def __init__(self, model, rep):
         self.model = model
@@ -441,7 +513,7 @@ class Checker:
                'per-path (insert, count += 1) tallies %s; must be exactly (1, 1) with the node as the stored object' % outs)
         ga = self._m(self.tree, 'getAll')
         ok = any(isinstance(c, ast.Call) and isinstance(c.func, ast.Attribute) and c.func.attr == 'nearestNeighbors'
-                 and len(c.args) == 2 and src(c.args[1]) == 'self.count' for c in ast.walk(ga.node))
+                 and len(c.args) == 2 and src(c.args[1]) in ('self.count', 'self.getCount()') for c in ast.walk(ga.node))
         rep.ob('R16.1', ga, 'getAll queries self.count neighbours', ok, 'getAll does not return all `count` nodes')
 
     def extraction(self):
@@ -581,9 +653,9 @@ class Checker:
         rep.rule('R16.9', 'R6Tree.place / nearestNeighbors hand the R-tree the point box (p[0..d-1], p[0..d-1]) of the node position for the dimensionality d of the tree')
         n = 0
         for meth, callee, argpos in (('place', 'self.idx.insert', 1), ('nearestNeighbors', 'self.idx.nearest', 0)):
-            fi = self.tree.methods.get(meth)
-            if fi is None:
+            if self.tree.methods.get(meth) is None:
                 raise AnalysisError('anchor vanished: R6Tree.' + meth)
+            fi = self._m(self.tree, meth)           # a shared point-box helper read in place
             node_p = fi.params[1]
             for d in (6, 3):
                 want = '(' + ','.join(['%s.getPosition()[%d]' % (node_p, k) for k in range(d)] * 2) + ')'
@@ -594,7 +666,9 @@ class Checker:
                 for ev, pth in sites:
                     n += 1
                     got = ev[2][argpos] if len(ev[2]) > argpos else '?'
-                    rep.ob('R16.9', fi, '%s (dimension %d): coordinates = position twice' % (meth, d), got == want,
+                    elems = _coords(ev[4][argpos] if len(ev) > 4 and len(ev[4]) > argpos else got, d)
+                    same = (elems == ['%s.getPosition()[%d]' % (node_p, k) for k in range(d)] * 2) if elems is not None else (got == want)
+                    rep.ob('R16.9', fi, '%s (dimension %d): coordinates = position twice' % (meth, d), same,
                            'a %d-dimensional tree is given the box %s; expected the point box of the node position %s (the index then stores / searches '
                            'the wrong place or rejects the call)' % (d, got[:120], want[:60] + '...'), line=ev[3])
                     if meth == 'place':
